@@ -10,6 +10,12 @@ AddUnused(t) == LetT(<<[n |-> "?", ann |-> TInt, def |-> Lit(OfSmall(0))]>>, Up(
 AddUnusedIn(g) == LET n == Len(g.defs) IN
    LetT(<<[n |-> "?", ann |-> TInt, def |-> Lit(OfSmall(0))]>> \o Mat([j \in 1..n |-> [g.defs[j] EXCEPT !.ann = Up(g.defs[j].ann, n, 1), !.def = Up(g.defs[j].def, n, 1)]], n),
         Up(g.b, n, 1))
+\* a ground annotation of member j of a group is given a name: a definition  t : type = <annotation>  is added in front and the
+\* member is annotated with t (the members keep their indices, references to the outside move up by one)
+AliasAnnIn(g, j) == LET n == Len(g.defs) IN
+   LetT(<<[n |-> "?", ann |-> TType, def |-> g.defs[j].ann]>> \o
+        Mat([q \in 1..n |-> [g.defs[q] EXCEPT !.ann = IF q = j THEN Var(n) ELSE Up(g.defs[q].ann, n, 1), !.def = Up(g.defs[q].def, n, 1)]], n),
+        Up(g.b, n, 1))
 \* if true then e else e
 IfTrueAt(t, s) == Replace(t, s.pos, IfT(TTrue, s.sub, s.sub))
 \* positions whose type is known from the parent alone
@@ -66,6 +72,8 @@ IsDefPos(pos) == Len(pos) >= 2 /\ pos[Len(pos) - 1] = "def"
 Rewrites(t) ==
   {[rule |-> "add-unused-definition", t |-> AddUnused(t)]}
   \cup { [rule |-> "add-unused-definition-in-group", t |-> Replace(t, s.pos, AddUnusedIn(s.sub))] : s \in { x \in Subterms(t, <<>>, 0) : x.sub.k = "let" } }
+  \cup UNION { { [rule |-> "name-annotation-in-group", t |-> Replace(t, s.pos, AliasAnnIn(s.sub, j))] : j \in { q \in 1..Len(s.sub.defs) : s.sub.defs[q].ann.k \in {"int", "bool"} } }
+              : s \in { x \in Subterms(t, <<>>, 0) : x.sub.k = "let" } }
   \* not at a definition of a group: there it matters whether the definition is a syntactic value (a recursive function
   \* wrapped in a conditional is no longer available to its own body in time)
   \cup { [rule |-> "if-true", t |-> IfTrueAt(t, s)] : s \in { x \in Subterms(t, <<>>, 0) : ~IsDefPos(x.pos) } }
